@@ -1,4 +1,6 @@
 import Woodpile.Driver.Util
+import Woodpile.Driver.Nfs
+import Woodpile.Driver.VTime
 import Woodpile.Driver.Abt
 import Woodpile.Driver.SortedDeque
 import Woodpile.Driver.SlidingDeque
@@ -22,6 +24,8 @@ def families : List (String × Family) :=
   ++ [("sdeque", SlidingDequeFam.family)]
   ++ [("sorted", SortedDequeFam.family)]
   ++ [("abt", AbtFam.family)]
+  ++ [("vtime", VTimeFam.family)]
+  ++ [("nfs", NfsFam.family)]
 
 def main (args : List String) : IO UInt32 := do
   match args with
